@@ -222,7 +222,8 @@ pub fn run_enum(prop: Prop, thorough: bool, threads: usize) -> (Stats, Option<Fo
     std::thread::scope(|s| {
         for t in 0..threads {
             let (units, next, fail_at, found, total, unit_digests) = (&units, &next, &fail_at, &found, &total, &unit_digests);
-            s.spawn(move || {
+            // large capacities of the wide element are several hundred KiB by value: give the workers room
+            let _ = std::thread::Builder::new().stack_size(64 << 20).spawn_scoped(s, move || {
                 set_worker(t);
                 let mut st = Stats::default();
                 loop {
@@ -278,7 +279,8 @@ pub fn run_prop(prop: Prop, cases: u32, max_ops: usize, seed: u64, threads: usiz
     std::thread::scope(|s| {
         for t in 0..threads {
             let (found, total, stop) = (&found, &total, &stop);
-            s.spawn(move || {
+            // large capacities of the wide element are several hundred KiB by value: give the workers room
+            let _ = std::thread::Builder::new().stack_size(64 << 20).spawn_scoped(s, move || {
                 set_worker(t);
                 let mut seed_bytes = [0u8; 32];
                 seed_bytes[..8].copy_from_slice(&seed.to_le_bytes());
